@@ -482,15 +482,19 @@ Section WS.
   Definition open_sp (w : world) (si : nat) (sp : json) : world * nat :=
     (add_H w (mkH si (calc_id frepr sp) (Some sp) None false), length (w_hs w)).
 
-  (* the id / prefix resolution of project.open_job(id=...) after a cache miss; reads only *)
-  Definition resolve (f : fs) (wsd : path) (i : str) : res str :=
+  (* the id / prefix resolution of project.open_job(id=...) after a cache miss; reads only.
+     [ids] is the directory listing (project._find_job_ids()), [present] is os.path.exists. *)
+  Definition resolve_ids (ids : list str) (present : str -> bool) (i : str) : res str :=
     if Nat.ltb (length i) 32 then
-      match filter (str_prefix i) (job_dirs f wsd) with
+      match filter (str_prefix i) ids with
       | [m] => inl m
       | [] => inr (FExn EKeyError)
       | _ => inr (FExn ELookupError)
       end
-    else if exists_ f (wsd ++ [i]) then inl i else inr (FExn EKeyError).
+    else if present i then inl i else inr (FExn EKeyError).
+
+  Definition resolve (f : fs) (wsd : path) (i : str) : res str :=
+    resolve_ids (job_dirs f wsd) (fun x => exists_ f (wsd ++ [x])) i.
 
   Definition open_id (w : world) (si : nat) (i : str) : world * res nat :=
     let s := getS w si in
